@@ -231,6 +231,12 @@ fn observe_csr<Ty: EdgeType, Ix: IndexType>(g: &Csr<u32, u32, Ty, Ix>, m: &CsrMo
     ensure!("edge_count", g.edge_count() == m.edge_count(), "edge_count() = {}, model {}", g.edge_count(), m.edge_count());
     let ids: Vec<usize> = g.node_identifiers().map(|i| i.index()).collect();
     ensure!("node_identifiers", ids == (0..n).collect::<Vec<_>>(), "node_identifiers() = {:?} for {} nodes", ids, n);
+    let nr: Vec<(usize, u32)> = petgraph::visit::IntoNodeReferences::node_references(g).map(|(i, w)| (i.index(), *w)).collect();
+    let exp_nr: Vec<(usize, u32)> = m.nodes.iter().copied().enumerate().collect();
+    ensure!("node_references", nr == exp_nr, "node_references() = {:?}, model {:?}", nr, exp_nr);
+    let mut nr_rev: Vec<(usize, u32)> = petgraph::visit::IntoNodeReferences::node_references(g).rev().map(|(i, w)| (i.index(), *w)).collect();
+    nr_rev.reverse();
+    ensure!("node_references_rev", nr_rev == exp_nr, "node_references().rev() reversed = {:?}, model {:?}", nr_rev, exp_nr);
     let mut all_rows: Vec<(usize, usize, u32)> = Vec::new();
     for a in 0..n {
         let ia = Ix::new(a);
@@ -826,6 +832,24 @@ fn run_list<Ix: IndexType>(name: &'static str, visit: bool, cfg: &ListCfg, mut f
             let exp_refs: Vec<(usize, usize, u32)> = rows.iter().enumerate().flat_map(|(a, r)| r.iter().map(move |x| (a, x.0, x.1))).collect();
             let refs: Vec<(usize, usize, u32)> = g.edge_references().map(|e| (e.source().index(), e.target().index(), *e.weight())).collect();
             ensure!("edge_references", refs == exp_refs, "edge_references() = {:?}, model (insertion order) {:?}", refs, exp_refs);
+            {
+                // a cloned iterator continues from the same position
+                let mut it = g.edge_references();
+                let k = obs_rng.below(total + 1);
+                for _ in 0..k { it.next(); }
+                let rest: Vec<(usize, usize, u32)> = it.clone().map(|e| (e.source().index(), e.target().index(), *e.weight())).collect();
+                ensure!("edge_references_clone", rest == exp_refs[k.min(total)..], "edge_references() cloned after {} items continues with {:?}, model {:?}", k, rest, &exp_refs[k.min(total)..]);
+            }
+            for a in 0..(n + 2) {
+                if a > max_index { continue; }
+                let w = DataMap::node_weight(&g, Ix::new(a));
+                ensure!("datamap_node_weight", w.is_some() == (a < n), "DataMap::node_weight({}) = {:?} with {} nodes", a, w, n);
+            }
+            {
+                let c = g.clone();
+                let crefs: Vec<(usize, usize, u32)> = c.edge_references().map(|e| (e.source().index(), e.target().index(), *e.weight())).collect();
+                ensure!("clone", crefs == exp_refs && NodeCount::node_count(&c) == n, "a clone lists {:?} over {} nodes, model {:?} over {}", crefs, NodeCount::node_count(&c), exp_refs, n);
+            }
             let idx: Vec<(usize, usize, Option<u32>)> = g.edge_indices().map(|e| { let ends = g.edge_endpoints(e).map(|(x, y)| (x.index(), y.index())).unwrap_or((usize::MAX, usize::MAX)); (ends.0, ends.1, DataMap::edge_weight(&g, e).copied()) }).collect();
             let exp_idx: Vec<(usize, usize, Option<u32>)> = exp_refs.iter().map(|x| (x.0, x.1, Some(x.2))).collect();
             ensure!("edge_indices", idx == exp_idx, "edge_indices() resolve to {:?}, model {:?}", idx, exp_idx);
@@ -870,7 +894,6 @@ fn run_list<Ix: IndexType>(name: &'static str, visit: bool, cfg: &ListCfg, mut f
             }
             Ok(())
         });
-        let _ = &mut obs_rng;
         let agrees = match obs {
             Ok(Ok(())) => true,
             Ok(Err((c, d))) => {
